@@ -4,10 +4,10 @@ import (
 	"sort"
 	"unsafe"
 
-	"golang.org/x/sys/unix"
-	ziptrans "github.com/polydawn/rio/transmat/zip"
 	"context"
 	"fmt"
+	ziptrans "github.com/polydawn/rio/transmat/zip"
+	"golang.org/x/sys/unix"
 	"os"
 	"os/exec"
 	"path/filepath"
@@ -338,21 +338,23 @@ func hostileEngine(c *Ctx) {
 	lnk := func(name, target string, mode int64, uid int) RawHdr {
 		return RawHdr{Name: name, Typeflag: '2', Link: target, Mode: mode, Uid: uid, Sec: 1e9}
 	}
-	file := func(name string) RawHdr { return RawHdr{Name: name, Typeflag: '0', Mode: 0644, Content: []byte("PWNED"), Sec: 1e9} }
+	file := func(name string) RawHdr {
+		return RawHdr{Name: name, Typeflag: '0', Mode: 0644, Content: []byte("PWNED"), Sec: 1e9}
+	}
 	dir := func(name string) RawHdr { return RawHdr{Name: name, Typeflag: '5', Mode: 0755, Sec: 1e9} }
 	corpus := [][]RawHdr{
-		{lnk(".", "@V@", 0777, 0), file("./pwned")},                       // root entry is a symlink, then a child
-		{lnk("./", "@V@", 04777, 1234)},                                   // root symlink with setid bits and a foreign owner (re-chmod follows)
-		{dir("./"), lnk("l", "@V@", 0777, 0), file("l/pwned")},            // through a link placed by an earlier entry
+		{lnk(".", "@V@", 0777, 0), file("./pwned")},            // root entry is a symlink, then a child
+		{lnk("./", "@V@", 04777, 1234)},                        // root symlink with setid bits and a foreign owner (re-chmod follows)
+		{dir("./"), lnk("l", "@V@", 0777, 0), file("l/pwned")}, // through a link placed by an earlier entry
 		{dir("./"), lnk("l", "../victim", 0777, 0), dir("l/newdir")},
-		{dir("./"), lnk("l", "@V@/passwd", 06777, 1234)},                 // symlink with setid bits + foreign owner: chmod through the link
+		{dir("./"), lnk("l", "@V@/passwd", 06777, 1234)}, // symlink with setid bits + foreign owner: chmod through the link
 		{dir("./"), file("../victim/pwned")},
 		{dir("./"), file("@V@/pwned")},
 		{dir("./"), file("a/../../victim/pwned")},
 		{dir("./"), lnk("d", "@V@", 0777, 0), lnk("d/passwd", "x", 0777, 0)},
-		{dir("./"), file("prelink/pwned")},                                // pre-existing link in the target
-		{dir("./"), file("prefile")},                                      // pre-existing link at the leaf
-		{dir("./"), dir("d/"), file("d/hard")},                            // pre-existing plain file whose inode is shared with the outside
+		{dir("./"), file("prelink/pwned")},     // pre-existing link in the target
+		{dir("./"), file("prefile")},           // pre-existing link at the leaf
+		{dir("./"), dir("d/"), file("d/hard")}, // pre-existing plain file whose inode is shared with the outside
 		{dir("./"), file("hard2"), dir("d/"), RawHdr{Name: "d/hard", Typeflag: '0', Mode: 0600, Uid: 4242, Gid: 4242, Sec: 2e9}},
 		{dir("./"), lnk("a", "b", 0777, 0), lnk("b", "@V@", 0777, 0), file("a/pwned")},
 		{dir("./"), RawHdr{Name: "hl", Typeflag: '1', Link: "@V@/passwd"}},
